@@ -9,7 +9,7 @@ from transcheck import tla_seq
 from vlib import (SPEC, ToolError, build_harness, case_hash, log, run_harness, run_tlc, require_ok,
                   seed, workdir, write_replay)
 
-MAXR, MAXP = 6, 3
+MAXR, MAXP = 13, 3
 
 
 def tla_progs(progs):
@@ -35,7 +35,7 @@ def model(wd, name, rmsgs, progs, break_inner=False, panic_wake=False, liveness=
 
 
 def gen_scenario(rnd, i, stop):
-    n = rnd.randrange(1, MAXR + 1)
+    n = rnd.randrange(1, 7)
     k = rnd.randrange(1, MAXP + 1)
     msgs = [rnd.choice([0, 1, 1, 2, 3, 5, 5, 40, 50]) if rnd.random() < 0.95 else 150 for _ in range(n)]
     kinds = [rnd.choice(["cb", "cb", "xbeam"]) for _ in range(n)]
@@ -51,12 +51,31 @@ def gen_scenario(rnd, i, stop):
         dropproxy = True
     sc = {"id": i, "seed": rnd.randrange(1 << 30), "msgs": msgs, "kinds": kinds, "progs": progs,
           "dropproxy": dropproxy, "presend": [rnd.choice([0, 0, 1, m]) for m in msgs], "stop": stop}
+    if i % 8 == 7:
+        # more routes than the receiver set's events buffer holds (10), all ready in the same batch: every route is
+        # registered first; then route 1's slow handler keeps the router busy while all the others receive traffic
+        n = rnd.choice([11, 12, 13])
+        sc["kinds"] = ["cb"] + [rnd.choice(["cb", "cb", "xbeam"]) for _ in range(n - 1)]
+        sc["msgs"] = [1] + [rnd.choice([1, 2, 5]) for _ in range(n - 1)]
+        sc["presend"] = [0] * n
+        sc["cbsleep"] = [30000] + [0] * (n - 1)
+        progs = [[] for _ in range(k)]
+        for r in range(1, n + 1):
+            progs[rnd.randrange(k)].append({"op": "add", "r": r})
+        if stop == "shutdown":
+            q = progs[rnd.randrange(k)]
+            q.append({"op": "sleep", "us": 120000})
+            q.append({"op": "shutdown"})
+        sc["progs"] = progs
+        sc["start_delay_us"] = [60000] + [70000] * (n - 1)
+        sc["burst_after_us"] = 1
+        return sc
     if i % 4 == 3 and n >= 3:
         # registration racing with traffic behind a slow handler: route 1 is a callback whose first call takes a while;
         # meanwhile bursts arrive on installed routes and further routes are registered, so that the router's next
         # batch holds many messages of several routes with a wake-up in between
         sc["kinds"][0] = "cb"
-        sc["msgs"] = [rnd.choice([1, 2])] + [rnd.choice([12, 25, 40]) for _ in range(n - 1)]
+        sc["msgs"] = [rnd.choice([1, 2])] + [rnd.choice([12, 25, 40] if n <= 6 else [2, 5]) for _ in range(n - 1)]
         sc["presend"] = [0] * n
         sc["cbsleep"] = [rnd.choice([15000, 30000])] + [0] * (n - 1)
         late = rnd.sample(range(2, n + 1), rnd.randrange(1, n - 1))
